@@ -693,6 +693,9 @@ func orchestrate(propID, tier string, seed int64, replay string) int {
 	if raceSummary != nil {
 		fmt.Printf("  race detector (informational, never a verdict): %d case(s) under -race, %d report(s), %d distinct access pairs in Babble code, %d in harness-only code\n",
 			raceSummary["cases_run_under_race_detector"], raceSummary["reports_total"], raceSummary["distinct_access_pairs_babble"], raceSummary["distinct_access_pairs_harness_only"])
+		if nb, ok := raceSummary["access_pairs_not_in_committed_baseline"].([]string); ok && len(nb) > 0 {
+			fmt.Printf("  race detector: %d access pair(s) not in the committed baseline of the unchanged tree (informational): %s\n", len(nb), strings.Join(nb, "; "))
+		}
 	}
 
 	if len(seenV) > 0 {
